@@ -13,6 +13,7 @@
 use crate::drivers::{self, Delivery, Doc, Ev, ReadOpts};
 use crate::engine::shard::ClosureSub;
 use crate::engine::*;
+use crate::engine::orchestrate;
 use crate::r#gen::payload::XorShift;
 use crate::oracle::{bgzf_walk, framing};
 use noodles_bam as bam;
@@ -35,6 +36,25 @@ pub struct Case {
     pub seed: u32,
     /// run only this mutant index (hand-written / attributed replays); None = the whole family
     pub only: Option<u32>,
+    /// hex of the bytes that were mutated, recorded with a failure when the writer is not a
+    /// deterministic function of the document (CRAM); used instead of writing the document
+    #[serde(default)]
+    pub base_hex: Option<String>,
+}
+
+fn hex(b: &[u8]) -> String {
+    let mut s = String::with_capacity(b.len() * 2);
+    for x in b {
+        s.push_str(&format!("{x:02x}"));
+    }
+    s
+}
+
+fn unhex(s: &str) -> Option<Vec<u8>> {
+    if s.len() % 2 != 0 {
+        return None;
+    }
+    (0..s.len() / 2).map(|i| u8::from_str_radix(&s[2 * i..2 * i + 2], 16).ok()).collect()
 }
 
 #[derive(Clone, Copy, Debug, PartialEq, Eq)]
@@ -84,6 +104,7 @@ pub const TARGETS: &[Target] = &[
     Target { name: "crai-payload", driver: "crai", domain: Domain::GzipInner, extra_driver: None },
 ];
 
+const SKIPPED: &str = "c15.internal.skipped";
 const ALL_POSITIONS_LIMIT: usize = 3000;
 const SAMPLED_POSITIONS: usize = 1200;
 const BYTE_VALUES: usize = 6;
@@ -143,17 +164,110 @@ fn apply(base: &[u8], m: &Mutation) -> Vec<u8> {
 /// Start offsets of the 4-byte little-endian record length fields of an uncompressed BAM / BCF
 /// stream (from the harness's own framing).
 fn length_fields(t: &Target, base: &[u8]) -> Vec<usize> {
-    match t.driver {
-        "bam-raw" => framing::bam(base).map(|f| f.boundaries[..f.boundaries.len().saturating_sub(1)].to_vec()).unwrap_or_default(),
-        "bcf-raw" => framing::bcf(base).map(|f| f.boundaries[..f.boundaries.len().saturating_sub(1)].iter().flat_map(|b| [*b, *b + 4]).collect()).unwrap_or_default(),
-        _ => Vec::new(),
+    fn u32_at(b: &[u8], off: usize) -> Option<usize> {
+        b.get(off..off + 4).map(|s| u32::from_le_bytes([s[0], s[1], s[2], s[3]]) as usize)
     }
+    // per reference of a BAI-style body: n_bin, then per bin id (+ loffset for CSI) + n_chunk + chunks,
+    // then (BAI/tabix) n_intv + offsets
+    fn refs(b: &[u8], mut off: usize, n_ref: usize, csi: bool, out: &mut Vec<usize>) -> Option<()> {
+        for _ in 0..n_ref.min(64) {
+            out.push(off);
+            let n_bin = u32_at(b, off)?;
+            off += 4;
+            for _ in 0..n_bin.min(100_000) {
+                off += if csi { 12 } else { 4 };
+                out.push(off);
+                let n_chunk = u32_at(b, off)?;
+                off += 4 + 16 * n_chunk;
+            }
+            if !csi {
+                out.push(off);
+                let n_intv = u32_at(b, off)?;
+                off += 4 + 8 * n_intv;
+            }
+        }
+        Some(())
+    }
+    let mut out = Vec::new();
+    match t.driver {
+        "bam-raw" | "bam-raw-eager" => {
+            if let Some(f) = framing::bam(base) {
+                out.extend_from_slice(&f.boundaries[..f.boundaries.len().saturating_sub(1)]);
+            }
+            // header: l_text, n_ref, l_name…
+            out.push(4);
+            if let Some(l_text) = u32_at(base, 4) {
+                let mut off = 8 + l_text;
+                out.push(off);
+                if let Some(n_ref) = u32_at(base, off) {
+                    off += 4;
+                    for _ in 0..n_ref.min(64) {
+                        out.push(off);
+                        let Some(l_name) = u32_at(base, off) else { break };
+                        off += 4 + l_name + 4;
+                    }
+                }
+            }
+        }
+        "bcf-raw" => {
+            if let Some(f) = framing::bcf(base) {
+                out.extend(f.boundaries[..f.boundaries.len().saturating_sub(1)].iter().flat_map(|b| [*b, *b + 4]));
+            }
+            out.push(5);
+        }
+        "bai" => {
+            out.push(4);
+            if let Some(n_ref) = u32_at(base, 4) {
+                let _ = refs(base, 8, n_ref, false, &mut out);
+            }
+        }
+        "tabix" => {
+            out.push(4);
+            out.push(32);
+            if let (Some(n_ref), Some(l_nm)) = (u32_at(base, 4), u32_at(base, 32)) {
+                let _ = refs(base, 36 + l_nm, n_ref, false, &mut out);
+            }
+        }
+        "csi" => {
+            out.push(12);
+            if let Some(l_aux) = u32_at(base, 12) {
+                let off = 16 + l_aux;
+                out.push(off);
+                if let Some(n_ref) = u32_at(base, off) {
+                    let _ = refs(base, off + 4, n_ref, true, &mut out);
+                }
+            }
+        }
+        _ => {}
+    }
+    out.retain(|o| *o + 4 <= base.len());
+    out.sort_unstable();
+    out.dedup();
+    out
 }
 
-/// A mutant that turns a record length field into ≥ 16 MiB makes the reader allocate and zero that
-/// much before it meets the end of input — legitimate resource use that costs seconds per mutant.
-/// Such mutants are kept only as a small sample (about 1 in 24), the rest are dropped and counted.
-fn inflates_length_field(base: &[u8], fields: &[usize], m: &Mutation, x: u64) -> bool {
+/// A mutant that turns a length or count field (located by the harness's own walkers) into ≥ 2^20
+/// makes the reader allocate, and often initialise, memory in proportion before it meets the end of
+/// input — seconds per mutant (and, when the request is refused, the listed abort findings). Such
+/// mutants are kept only as a sample (about 1 in 24); the rest are dropped and counted.
+fn inflates_length_field(t: &Target, base: &[u8], fields: &[usize], m: &Mutation, x: u64) -> bool {
+    // uncompressed BAM/BCF: walk the mutated stream the way the record reader will and look at the
+    // first record length it cannot satisfy (covers byte deletions/duplications that shift the
+    // whole stream, not only mutations inside a length field)
+    if matches!(t.driver, "bam-raw" | "bam-raw-eager" | "bcf-raw") {
+        let v = apply(base, m);
+        let stop = if t.driver == "bcf-raw" { framing::bcf(&v).map(|f| *f.boundaries.last().unwrap_or(&0)) } else { framing::bam(&v).map(|f| *f.boundaries.last().unwrap_or(&0)) };
+        if let Some(off) = stop {
+            let n_fields = if t.driver == "bcf-raw" { 2 } else { 1 };
+            for k in 0..n_fields {
+                if let Some(b) = v.get(off + 4 * k..off + 4 * k + 4) {
+                    if u32::from_le_bytes([b[0], b[1], b[2], b[3]]) >= (1 << 24) && x % 24 != 0 {
+                        return true;
+                    }
+                }
+            }
+        }
+    }
     let (pos, width) = match m {
         Mutation::Byte { pos, .. } => (*pos, 1usize),
         Mutation::Word { pos, width, .. } => (*pos, *width as usize),
@@ -163,7 +277,7 @@ fn inflates_length_field(base: &[u8], fields: &[usize], m: &Mutation, x: u64) ->
         if pos + width > *f && pos < *f + 4 && *f + 4 <= base.len() {
             let v = apply(base, m);
             let val = u32::from_le_bytes([v[*f], v[*f + 1], v[*f + 2], v[*f + 3]]);
-            if val >= (1 << 24) && x % 24 != 0 {
+            if val >= (1 << 20) && x % 24 != 0 {
                 return true;
             }
         }
@@ -462,48 +576,35 @@ fn check(t: &Target, c: &Case) -> Verdict {
         Ok(b) => b,
         Err(e) => return fail1(format!("c15.baseline-write-error:{}", t.name), format!("writing the generated document failed: {e}")),
     };
-    let prep = match prepare(t, &file) {
+    let mut prep = match prepare(t, &file) {
         Ok(p) => p,
         Err(e) => return fail1(format!("c15.baseline-prepare:{}", t.name), e),
+    };
+    if let Some(b) = c.base_hex.as_deref().and_then(unhex) {
+        prep.base = b;
+    }
+    let pin_base = t.driver == "cram";
+    let patch_for = |i: usize| -> serde_json::Value {
+        if pin_base { serde_json::json!({"only": i, "base_hex": hex(&prep.base)}) } else { serde_json::json!({"only": i}) }
     };
     let is_index = matches!(t.driver, "bai" | "csi" | "tabix" | "gzi" | "fai" | "crai");
     let data = if is_index { Some(data_file(&c.data_doc)) } else { None };
     let fields = length_fields(t, &prep.base);
-    let mut dropped_inflating = 0u64;
-    let muts: Vec<Mutation> = family(prep.base.len(), c.seed)
-        .into_iter()
-        .enumerate()
-        .filter(|(i, m)| {
-            let drop = inflates_length_field(&prep.base, &fields, m, crate::engine::mix(c.seed as u64, *i as u64));
-            if drop {
-                dropped_inflating += 1;
-            }
-            !drop
-        })
-        .map(|(_, m)| m)
-        .collect();
-    let opts = ReadOpts { sweep: true, vpos: false, max_events: 20_000, ..ReadOpts::default() };
+    // indices into the unfiltered family are what replay files pin (`only`), so they stay valid when
+    // the sampling of length-inflating mutants changes
+    let muts: Vec<Mutation> = family(prep.base.len(), c.seed);
+    let dropped: Vec<bool> = muts.iter().enumerate().map(|(i, m)| inflates_length_field(t, &prep.base, &fields, m, crate::engine::mix(c.seed as u64, i as u64))).collect();
+    let dropped_inflating = dropped.iter().filter(|d| **d).count() as u64;
+    let opts = ReadOpts { sweep: true, vpos: false, max_events: 20_000, exclude_known_hangs: c.only.is_none(), ..ReadOpts::default() };
     let mut fails = Fails::new();
     let mut past_validation = 0u64;
     let mut n = 0u64;
-    for (i, m) in muts.iter().enumerate() {
-        if let Some(only) = c.only {
-            if only as usize != i {
-                continue;
-            }
-        }
-        if c.only.is_none() {
-            if let Some(h) = inner_skip() {
-                if i as u64 <= h {
-                    continue;
-                }
-            }
-        }
-        n += 1;
-        set_case_hint(i as u64);
-        if std::env::var_os("NV_TRACE_MUTANT").is_some() {
-            eprintln!("mutant #{i} {m:?}");
-        }
+    let mut unattributed_deaths = 0u64;
+    // one mutant: read with every driver of the target (+ query battery); panics are caught per call
+    let run_one = |i: usize| -> (bool, Vec<Fail>) {
+        let m = &muts[i];
+        let mut f = Fails::new();
+        let mut past = false;
         let bytes = Arc::new(finalize(t, &prep, apply(&prep.base, m)));
         let what = format!("mutant #{i} {m:?} of a {}-byte input", prep.base.len());
         for d in std::iter::once(&drv).chain(extra.iter()) {
@@ -511,27 +612,127 @@ fn check(t: &Target, c: &Case) -> Verdict {
             match r {
                 Ok((tr, _)) => {
                     if tr.iter().any(|e| matches!(e, Ev::Header(_) | Ev::Record(_) | Ev::Index(_))) {
-                        past_validation += 1;
+                        past = true;
                     }
                     if tr.iter().any(|e| matches!(e, Ev::Runaway)) {
-                        fails.push(format!("c15.runaway:{}", d.name()), format!("reader keeps producing events on {what}"));
+                        f.push(format!("c15.runaway:{}", d.name()), format!("reader keeps producing events on {what}"));
                     }
                 }
                 Err(info) => {
                     if info.in_harness() {
-                        fails.push(shard::HARNESS_PANIC, info.describe());
+                        f.push(shard::HARNESS_PANIC, info.describe());
                     } else {
-                        fails.push(info.sig(), format!("{} — reader {} on {what}", info.describe(), d.name()));
+                        f.push(info.sig(), format!("{} — reader {} on {what}", info.describe(), d.name()));
                     }
                 }
             }
         }
         if let Some(df) = &data {
-            query_battery(t.driver, &bytes, df, &mut fails, &what);
+            query_battery(t.driver, &bytes, df, &mut f, &what);
         }
-        if fails.0.len() >= 16 {
-            break;
+        (past, f.0)
+    };
+    if let Some(only) = c.only {
+        // a single mutant (replay files): in this process, so that the engine's isolated replay
+        // attributes an abort or hang with a backtrace
+        if (only as usize) < muts.len() {
+            n = 1;
+            if std::env::var_os("NV_TRACE_MUTANT").is_some() {
+                eprintln!("mutant #{only} {:?}", muts[only as usize]);
+            }
+            let (past, fs) = run_one(only as usize);
+            past_validation += past as u64;
+            for f in fs {
+                fails.push_fail(f.with_patch(patch_for(only as usize)));
+            }
         }
+    } else {
+        // the whole family: in forked batches, so that an abort (refused allocation, stack
+        // overflow) or a hang costs one mutant, is attributed to it, and the family goes on
+        let stderr_path = env().tmp_dir.join(format!("c15-{}-stderr.txt", std::process::id()));
+        let mut start = inner_skip().map(|h| h as usize + 1).unwrap_or(0);
+        let mut attributed = 0u32;
+        // dropped (sampled-out) mutants are skipped inside the batch and reported as not run
+        let run_kept = |i: usize| -> (bool, Vec<Fail>) { if dropped[i] { (false, vec![Fail::new(SKIPPED, "")]) } else { run_one(i) } };
+        while start < muts.len() && fails.0.len() < 16 {
+            let (outs, end) = forked::run_batch(start, muts.len(), &run_kept, &stderr_path, 8_000);
+            for o in outs {
+                if o.fails.iter().any(|f| f.sig == SKIPPED) {
+                    continue;
+                }
+                n += 1;
+                past_validation += o.past as u64;
+                for f in o.fails {
+                    fails.push_fail(f.with_patch(patch_for(o.idx)));
+                }
+            }
+            match end {
+                forked::BatchEnd::Done => break,
+                forked::BatchEnd::Died { at, signal } => {
+                    n += 1;
+                    if std::env::var_os("NV_C15_DEBUG").is_some() {
+                        eprintln!("[c15] death at mutant #{at} {:?}", muts[at]);
+                    }
+                    let signame = orchestrate::signal_name(signal);
+                    // Attribution needs a symbolised backtrace from a re-run of that one mutant, which
+                    // costs seconds; the same few sites abort again and again within a case (every
+                    // mutant that makes one count field huge), so only the first three deaths of a
+                    // case are attributed and the later ones are counted as unattributed.
+                    // The dying child leaves a raw (unsymbolised) backtrace; forked children share
+                    // the parent's address space layout, so equal raw backtraces mean the same site.
+                    // Only the first death per distinct raw backtrace is re-run alone with a
+                    // symbolised backtrace (seconds); the others reuse its attribution.
+                    let raw = forked::raw_backtrace(&std::fs::read_to_string(&stderr_path).unwrap_or_default());
+                    let cached = raw.as_ref().and_then(|k| forked::SITES.lock().ok().and_then(|m| m.get(k).cloned()));
+                    let sig_msg: Option<(String, String)> = if let Some(sig) = cached {
+                        Some((sig, format!("process died with {signame} on mutant #{at} {:?} of a {}-byte input", muts[at], prep.base.len())))
+                    } else if attributed < 12 {
+                        attributed += 1;
+                        if std::env::var_os("NV_C15_DEBUG").is_some() {
+                            eprintln!("[c15] attributing (symbolised re-run) mutant #{at}");
+                        }
+                        unsafe { std::env::set_var("RUST_BACKTRACE", "1") };
+                        let (_, end2) = forked::run_batch_opts(at, at + 1, &run_one, &stderr_path, 90_000, false);
+                        unsafe { std::env::remove_var("RUST_BACKTRACE") };
+                        if let forked::BatchEnd::Died { signal: s2, .. } = end2 {
+                            let err = std::fs::read_to_string(&stderr_path).unwrap_or_default();
+                            let (site, first) = orchestrate::abort_site(&err);
+                            let signame2 = orchestrate::signal_name(s2);
+                            let sig = match site {
+                                Some(f) => format!("abort:{signame2}:{f}"),
+                                None => format!("abort:{signame2}@{}", t.name),
+                            };
+                            if let (Some(k), Ok(mut m)) = (raw, forked::SITES.lock()) {
+                                m.insert(k, sig.clone());
+                            }
+                            Some((sig, format!("process died with {signame2} — {} — on mutant #{at} {:?} of a {}-byte input", trunc(&first, 200), muts[at], prep.base.len())))
+                        } else {
+                            Some((format!("abort:{signame}@{}", t.name), format!("process died with {signame} (not reproduced alone) on mutant #{at} {:?} of a {}-byte input", muts[at], prep.base.len())))
+                        }
+                    } else {
+                        unattributed_deaths += 1;
+                        None
+                    };
+                    if let Some((sig, msg)) = sig_msg {
+                        fails.push_fail(Fail::new(sig, msg).with_patch(patch_for(at)));
+                    }
+                    start = at + 1;
+                }
+                forked::BatchEnd::Hung { at } => {
+                    if std::env::var_os("NV_C15_DEBUG").is_some() {
+                        eprintln!("[c15] no progress for 8 s at mutant #{at} {:?}", muts[at]);
+                    }
+                    // reproduce alone with ten times the budget before it counts
+                    let (_, end2) = forked::run_batch(at, at + 1, &run_one, &stderr_path, 80_000);
+                    n += 1;
+                    if matches!(end2, forked::BatchEnd::Hung { .. }) {
+                        fails.push_fail(Fail::new(format!("hang@{}", t.name), format!("reader does not return within 80 s on mutant #{at} {:?} of a {}-byte input", muts[at], prep.base.len())).with_patch(patch_for(at)));
+                    }
+                    start = at + 1;
+                }
+            }
+        }
+        let _ = std::fs::remove_file(&stderr_path);
     }
     fails.finish(
         Pass::new(past_validation > 0, key_of(&c.doc))
@@ -540,7 +741,8 @@ fn check(t: &Target, c: &Case) -> Verdict {
             .label_if(past_validation * 2 > n, "majority-past-first-validation")
             .label_if(prep.base.len() <= ALL_POSITIONS_LIMIT, "every-position")
             .label_if(prep.base.len() > ALL_POSITIONS_LIMIT, "sampled-positions")
-            .label_if(dropped_inflating > 0, "length-inflating-mutants-sampled"),
+            .label_if(dropped_inflating > 0, "length-inflating-mutants-sampled")
+            .label_if(unattributed_deaths > 0, "further-deaths-in-case-not-attributed"),
     )
 }
 
@@ -644,12 +846,12 @@ pub fn property() -> Property {
                     } else {
                         d.doc(tier)
                     };
-                    (doc, proptest::option::of(drivers::aln_doc(8).prop_map(Doc::Aln)), any::<u32>()).prop_map(|(doc, data_doc, seed)| Case { doc, data_doc, seed, only: None }).boxed()
+                    (doc, proptest::option::of(drivers::aln_doc(8).prop_map(Doc::Aln)), any::<u32>()).prop_map(|(doc, data_doc, seed)| Case { doc, data_doc, seed, only: None, base_hex: None }).boxed()
                 }),
                 check: Box::new(move |c| check(t, c)),
                 quick: q,
                 thorough: th,
-                opts: SubOpts { max_shards: 4, isolate: true, hang_is_violation: true, case_budget_s: 60, max_shrink_iters: 40, timeout_s: (1500, 10800), ..SubOpts::default() },
+                opts: SubOpts { max_shards: 4, isolate: true, hang_is_violation: true, case_budget_s: 60, max_shrink_iters: 0, timeout_s: (1500, 10800), ..SubOpts::default() },
             }
             .boxed(),
         );
@@ -690,5 +892,231 @@ pub fn property() -> Property {
         ],
         subs,
         max_parallel: 8,
+    }
+}
+
+/// Run a range of inner evaluations in a forked child process, streaming the per-evaluation
+/// results to the parent through a pipe. If the child dies or stops making progress, the parent
+/// knows which evaluation was running.
+mod forked {
+    use crate::engine::Fail;
+    use std::path::Path;
+
+    pub struct Out {
+        pub idx: usize,
+        pub past: bool,
+        pub fails: Vec<Fail>,
+    }
+
+    pub enum BatchEnd {
+        Done,
+        Died { at: usize, signal: i32 },
+        Hung { at: usize },
+    }
+
+    fn put(fd: i32, bytes: &[u8]) {
+        let mut off = 0;
+        while off < bytes.len() {
+            let n = unsafe { libc::write(fd, bytes[off..].as_ptr() as *const libc::c_void, bytes.len() - off) };
+            if n <= 0 {
+                unsafe { libc::_exit(3) };
+            }
+            off += n as usize;
+        }
+    }
+
+    /// Parse complete records from `buf`; returns the number of bytes consumed.
+    fn parse(buf: &[u8], outs: &mut Vec<Out>, started: &mut Option<usize>, done: &mut bool) -> usize {
+        let mut p = 0;
+        loop {
+            let Some(tag) = buf.get(p) else { return p };
+            match tag {
+                b'S' => {
+                    let Some(b) = buf.get(p + 1..p + 5) else { return p };
+                    *started = Some(u32::from_le_bytes([b[0], b[1], b[2], b[3]]) as usize);
+                    p += 5;
+                }
+                b'E' => {
+                    let Some(h) = buf.get(p + 1..p + 4) else { return p };
+                    let past = h[0] != 0;
+                    let nf = u16::from_le_bytes([h[1], h[2]]) as usize;
+                    let mut q = p + 4;
+                    let mut fails = Vec::new();
+                    for _ in 0..nf {
+                        let mut strs = Vec::new();
+                        for _ in 0..2 {
+                            let Some(l) = buf.get(q..q + 2) else { return p };
+                            let len = u16::from_le_bytes([l[0], l[1]]) as usize;
+                            let Some(sb) = buf.get(q + 2..q + 2 + len) else { return p };
+                            strs.push(String::from_utf8_lossy(sb).into_owned());
+                            q += 2 + len;
+                        }
+                        fails.push(Fail::new(strs[0].clone(), strs[1].clone()));
+                    }
+                    outs.push(Out { idx: started.unwrap_or(0), past, fails });
+                    *started = None;
+                    p = q;
+                }
+                b'D' => {
+                    *done = true;
+                    p += 1;
+                }
+                _ => return buf.len(), // corrupt stream: drop
+            }
+        }
+    }
+
+    /// raw backtrace (as written by the child's SIGABRT handler) → attributed signature
+    pub static SITES: std::sync::Mutex<std::collections::BTreeMap<String, String>> = std::sync::Mutex::new(std::collections::BTreeMap::new());
+
+    /// The "RAWBT …" line of a dead child's stderr.
+    pub fn raw_backtrace(stderr: &str) -> Option<String> {
+        stderr.lines().find(|l| l.starts_with("RAWBT ")).map(|l| l.to_string())
+    }
+
+    extern "C" fn on_abort(_sig: libc::c_int) {
+        // async-signal-safe only: backtrace() (pre-loaded below), write(), _exit()
+        let mut frames = [std::ptr::null_mut::<libc::c_void>(); 40];
+        let n = unsafe { libc::backtrace(frames.as_mut_ptr(), 40) };
+        let mut line = [0u8; 40 * 17 + 8];
+        let mut p = 0;
+        for b in b"RAWBT " {
+            line[p] = *b;
+            p += 1;
+        }
+        for f in frames.iter().take(n.max(0) as usize) {
+            let mut v = *f as usize;
+            let mut digits = [0u8; 16];
+            for d in digits.iter_mut().rev() {
+                *d = b"0123456789abcdef"[v & 15];
+                v >>= 4;
+            }
+            for d in digits {
+                line[p] = d;
+                p += 1;
+            }
+            line[p] = b',';
+            p += 1;
+        }
+        line[p] = b'\n';
+        p += 1;
+        unsafe {
+            libc::write(2, line.as_ptr() as *const libc::c_void, p);
+            libc::_exit(134);
+        }
+    }
+
+    pub fn run_batch(start: usize, end: usize, run: &dyn Fn(usize) -> (bool, Vec<Fail>), stderr_path: &Path, per_eval_timeout_ms: i32) -> (Vec<Out>, BatchEnd) {
+        run_batch_opts(start, end, run, stderr_path, per_eval_timeout_ms, true)
+    }
+
+    pub fn run_batch_opts(start: usize, end: usize, run: &dyn Fn(usize) -> (bool, Vec<Fail>), stderr_path: &Path, per_eval_timeout_ms: i32, raw_handler: bool) -> (Vec<Out>, BatchEnd) {
+        let mut fds = [0i32; 2];
+        if unsafe { libc::pipe(fds.as_mut_ptr()) } != 0 {
+            // cannot fork-isolate: run in process
+            let mut outs = Vec::new();
+            for i in start..end {
+                let (past, fails) = run(i);
+                outs.push(Out { idx: i, past, fails });
+            }
+            return (outs, BatchEnd::Done);
+        }
+        let stderr_c = std::ffi::CString::new(stderr_path.to_string_lossy().as_bytes()).unwrap_or_default();
+        let pid = unsafe { libc::fork() };
+        if pid == 0 {
+            // child
+            unsafe {
+                libc::close(fds[0]);
+                let efd = libc::open(stderr_c.as_ptr(), libc::O_WRONLY | libc::O_CREAT | libc::O_TRUNC, 0o600);
+                if efd >= 0 {
+                    libc::dup2(efd, 2);
+                }
+            }
+            crate::engine::shard::case_finished(); // the parent's per-case watchdog does not exist here
+            if raw_handler {
+                unsafe {
+                    // load the unwinder now: backtrace() must not allocate inside the handler
+                    let mut warm = [std::ptr::null_mut::<libc::c_void>(); 4];
+                    libc::backtrace(warm.as_mut_ptr(), 4);
+                    libc::signal(libc::SIGABRT, on_abort as *const () as usize);
+                }
+            }
+            for i in start..end {
+                let mut rec = vec![b'S'];
+                rec.extend_from_slice(&(i as u32).to_le_bytes());
+                put(fds[1], &rec);
+                let (past, fails) = run(i);
+                let mut rec = vec![b'E', past as u8];
+                rec.extend_from_slice(&(fails.len().min(16) as u16).to_le_bytes());
+                for f in fails.iter().take(16) {
+                    for s in [&f.sig, &f.msg] {
+                        let b = s.as_bytes();
+                        let b = &b[..b.len().min(1500)];
+                        rec.extend_from_slice(&(b.len() as u16).to_le_bytes());
+                        rec.extend_from_slice(b);
+                    }
+                }
+                put(fds[1], &rec);
+            }
+            put(fds[1], b"D");
+            unsafe { libc::_exit(0) };
+        }
+        unsafe { libc::close(fds[1]) };
+        if pid < 0 {
+            unsafe { libc::close(fds[0]) };
+            let mut outs = Vec::new();
+            for i in start..end {
+                let (past, fails) = run(i);
+                outs.push(Out { idx: i, past, fails });
+            }
+            return (outs, BatchEnd::Done);
+        }
+        let mut outs = Vec::new();
+        let mut started: Option<usize> = None;
+        let mut last_started = start;
+        let mut done = false;
+        let mut buf: Vec<u8> = Vec::new();
+        let mut hung = false;
+        loop {
+            let mut pfd = libc::pollfd { fd: fds[0], events: libc::POLLIN, revents: 0 };
+            let r = unsafe { libc::poll(&mut pfd, 1, per_eval_timeout_ms) };
+            if r == 0 {
+                hung = true;
+                unsafe { libc::kill(pid, libc::SIGKILL) };
+                break;
+            }
+            if r < 0 {
+                continue;
+            }
+            let mut tmp = [0u8; 65536];
+            let k = unsafe { libc::read(fds[0], tmp.as_mut_ptr() as *mut libc::c_void, tmp.len()) };
+            if k <= 0 {
+                break;
+            }
+            buf.extend_from_slice(&tmp[..k as usize]);
+            let used = parse(&buf, &mut outs, &mut started, &mut done);
+            buf.drain(..used);
+            if let Some(s) = started {
+                last_started = s;
+            }
+        }
+        unsafe { libc::close(fds[0]) };
+        let mut status = 0i32;
+        unsafe { libc::waitpid(pid, &mut status, 0) };
+        if hung {
+            return (outs, BatchEnd::Hung { at: started.unwrap_or(last_started) });
+        }
+        if done && libc::WIFEXITED(status) && libc::WEXITSTATUS(status) == 0 {
+            return (outs, BatchEnd::Done);
+        }
+        // exit code 134 = our SIGABRT handler wrote the raw backtrace and left
+        let signal = if libc::WIFSIGNALED(status) {
+            libc::WTERMSIG(status)
+        } else if libc::WIFEXITED(status) && libc::WEXITSTATUS(status) == 134 {
+            libc::SIGABRT
+        } else {
+            0
+        };
+        (outs, BatchEnd::Died { at: started.unwrap_or(last_started), signal })
     }
 }
